@@ -99,18 +99,24 @@ package log
 //@   ensures[C01,C03,C10:nonnil] result != nil && !pooled[result]
 
 // FastCaller(skip) reports the frame skip+1 levels above its own frame, i.e. `skip` levels above its
-// caller.  ASSUMED for now (body not verified): stated from its documentation and TestCaller.
+// caller (what TestCaller pins for skip=0).  The cache maps a program counter to its location.
+//@ spec fun cachedOK(k any, v any) bool = dyn(v, *runtime.Frame) && as(v, *runtime.Frame) != nil && as(v, *runtime.Frame).File == frame_file(pc_frame(ifval(k))) && as(v, *runtime.Frame).Line == frame_line(pc_frame(ifval(k)))
+
 //@ func FastCaller
-//@   trusted
-//@   modifies nothing
-//@   ensures deep(up($frame, skip + 1)) ==> file == frame_file(up($frame, skip + 1)) && line == frame_line(up($frame, skip + 1))
-//@   ensures !deep(up($frame, skip + 1)) ==> file == "" && line == 0
+//@   requires 0 <= skip && skip <= 1000001
+//@   requires forall k any :: smHas[addr(frameCache)][k] ==> isold(ifval(smVal[addr(frameCache)][k]))
+//@   maintains[C11:cache-invariant] forall k any :: smHas[addr(frameCache)][k] ==> cachedOK(k, smVal[addr(frameCache)][k])
+//@   modifies smHas[addr(frameCache)], smVal[addr(frameCache)], framesPC
+//@   ensures[C11:location] deep(up($frame, skip + 1)) ==> file == frame_file(up($frame, skip + 1)) && line == frame_line(up($frame, skip + 1))
+//@   ensures[C11:shallow-stack] !deep(up($frame, skip + 1)) ==> file == "" && line == 0
 
 //@ func record
 //@   requires logger != nil
 //@   requires 0 <= skip && skip <= 1000000
+//@   requires forall k any :: smHas[addr(frameCache)][k] ==> isold(ifval(smVal[addr(frameCache)][k]))
+//@   maintains[C11:cache-invariant] forall k any :: smHas[addr(frameCache)][k] ==> cachedOK(k, smVal[addr(frameCache)][k])
 //@   let on = enable(Logger.GetLevel(logger), level)
-//@   modifies appended[logger], lastLevel[logger], lastTag[logger], lastFields[logger], lastFile[logger], lastLine[logger], lastTime[logger], lastCtxString[logger], lastCtxFields[logger], all(Event), calls(TimeNow), calls(StringFromContext), calls(FieldsFromContext), lastNow, pooled
+//@   modifies appended[logger], lastLevel[logger], lastTag[logger], lastFields[logger], lastFile[logger], lastLine[logger], lastTime[logger], lastCtxString[logger], lastCtxFields[logger], all(Event), calls(TimeNow), calls(StringFromContext), calls(FieldsFromContext), lastNow, pooled, smHas[addr(frameCache)], smVal[addr(frameCache)], framesPC
 //@   ensures[C01,C10:disabled] !on ==> appended[logger] == old(appended[logger]) && calls(TimeNow) == old(calls(TimeNow)) && calls(StringFromContext) == old(calls(StringFromContext)) && calls(FieldsFromContext) == old(calls(FieldsFromContext))
 //@   ensures[C01:once] on ==> appended[logger] == old(appended[logger]) + 1 && lastLevel[logger] == level && lastTag[logger] == tag && lastFields[logger] == fields
 //@   ensures[C10:time] on && TimeNow != nil ==> calls(TimeNow) == old(calls(TimeNow)) + 1 && arg0(TimeNow) == ctx && lastTime[logger] == ret(TimeNow, calls(TimeNow))
@@ -128,9 +134,11 @@ package log
 //@ func record@B
 //@   requires logger != nil
 //@   requires 0 <= skip && skip <= 1000000
+//@   requires forall k any :: smHas[addr(frameCache)][k] ==> isold(ifval(smVal[addr(frameCache)][k]))
+//@   maintains[C11:cache-invariant] forall k any :: smHas[addr(frameCache)][k] ==> cachedOK(k, smVal[addr(frameCache)][k])
 //@   let on = enable(Logger.GetLevel(logger), level)
 //@   requires on
-//@   modifies appended[logger], lastLevel[logger], lastTag[logger], lastFields[logger], lastFile[logger], lastLine[logger], lastTime[logger], lastCtxString[logger], lastCtxFields[logger], all(Event), calls(TimeNow), calls(StringFromContext), calls(FieldsFromContext), lastNow, pooled
+//@   modifies appended[logger], lastLevel[logger], lastTag[logger], lastFields[logger], lastFile[logger], lastLine[logger], lastTime[logger], lastCtxString[logger], lastCtxFields[logger], all(Event), calls(TimeNow), calls(StringFromContext), calls(FieldsFromContext), lastNow, pooled, smHas[addr(frameCache)], smVal[addr(frameCache)], framesPC
 //@   ensures[C01:once] on ==> appended[logger] == old(appended[logger]) + 1 && lastLevel[logger] == level && lastTag[logger] == tag && lastFields[logger] == fields
 //@   ensures[C10:time] on && TimeNow != nil ==> calls(TimeNow) == old(calls(TimeNow)) + 1 && arg0(TimeNow) == ctx && lastTime[logger] == ret(TimeNow, calls(TimeNow))
 //@   ensures[C10:time-default] on && TimeNow == nil ==> calls(TimeNow) == old(calls(TimeNow))
@@ -153,10 +161,12 @@ package log
 
 //@ func Trace
 //@   requires tag != nil
+//@   requires forall k any :: smHas[addr(frameCache)][k] ==> isold(ifval(smVal[addr(frameCache)][k]))
+//@   maintains[C11:cache-invariant] forall k any :: smHas[addr(frameCache)][k] ==> cachedOK(k, smVal[addr(frameCache)][k])
 //@   requires fn != nil
 //@   let l = loggerOf(tag)
 //@   let on = enable(Logger.GetLevel(l), TraceLevel)
-//@   modifies appended[l], lastLevel[l], lastTag[l], lastFields[l], lastFile[l], lastLine[l], lastTime[l], lastCtxString[l], lastCtxFields[l], all(Event), calls(TimeNow), calls(StringFromContext), calls(FieldsFromContext), calls(fn), lastNow, pooled
+//@   modifies appended[l], lastLevel[l], lastTag[l], lastFields[l], lastFile[l], lastLine[l], lastTime[l], lastCtxString[l], lastCtxFields[l], all(Event), calls(TimeNow), calls(StringFromContext), calls(FieldsFromContext), calls(fn), lastNow, pooled, smHas[addr(frameCache)], smVal[addr(frameCache)], framesPC
 //@   ensures[C01:own-level] on ==> appended[l] == old(appended[l]) + 1 && lastLevel[l] == TraceLevel && lastTag[l] == tag.tag
 //@   ensures[C01,C10:disabled] !on ==> appended[l] == old(appended[l]) && calls(TimeNow) == old(calls(TimeNow)) && calls(StringFromContext) == old(calls(StringFromContext)) && calls(FieldsFromContext) == old(calls(FieldsFromContext))
 //@   ensures[C10:lazy-once] calls(fn) == old(calls(fn)) + (on ? 1 : 0)
@@ -165,19 +175,23 @@ package log
 
 //@ func Tracef
 //@   requires tag != nil
+//@   requires forall k any :: smHas[addr(frameCache)][k] ==> isold(ifval(smVal[addr(frameCache)][k]))
+//@   maintains[C11:cache-invariant] forall k any :: smHas[addr(frameCache)][k] ==> cachedOK(k, smVal[addr(frameCache)][k])
 //@   let l = loggerOf(tag)
 //@   let on = enable(Logger.GetLevel(l), TraceLevel)
-//@   modifies appended[l], lastLevel[l], lastTag[l], lastFields[l], lastFile[l], lastLine[l], lastTime[l], lastCtxString[l], lastCtxFields[l], all(Event), calls(TimeNow), calls(StringFromContext), calls(FieldsFromContext), elems(Field), lastNow, pooled
+//@   modifies appended[l], lastLevel[l], lastTag[l], lastFields[l], lastFile[l], lastLine[l], lastTime[l], lastCtxString[l], lastCtxFields[l], all(Event), calls(TimeNow), calls(StringFromContext), calls(FieldsFromContext), elems(Field), lastNow, pooled, smHas[addr(frameCache)], smVal[addr(frameCache)], framesPC
 //@   ensures[C01:own-level] on ==> appended[l] == old(appended[l]) + 1 && lastLevel[l] == TraceLevel && lastTag[l] == tag.tag
 //@   ensures[C01,C10:disabled] !on ==> appended[l] == old(appended[l]) && calls(TimeNow) == old(calls(TimeNow)) && calls(StringFromContext) == old(calls(StringFromContext)) && calls(FieldsFromContext) == old(calls(FieldsFromContext))
 //@   ensures[C11:caller] on && enableCaller && deep(up($frame, 1)) ==> lastFile[l] == frame_file(up($frame, 1)) && lastLine[l] == frame_line(up($frame, 1))
 
 //@ func Debug
 //@   requires tag != nil
+//@   requires forall k any :: smHas[addr(frameCache)][k] ==> isold(ifval(smVal[addr(frameCache)][k]))
+//@   maintains[C11:cache-invariant] forall k any :: smHas[addr(frameCache)][k] ==> cachedOK(k, smVal[addr(frameCache)][k])
 //@   requires fn != nil
 //@   let l = loggerOf(tag)
 //@   let on = enable(Logger.GetLevel(l), DebugLevel)
-//@   modifies appended[l], lastLevel[l], lastTag[l], lastFields[l], lastFile[l], lastLine[l], lastTime[l], lastCtxString[l], lastCtxFields[l], all(Event), calls(TimeNow), calls(StringFromContext), calls(FieldsFromContext), calls(fn), lastNow, pooled
+//@   modifies appended[l], lastLevel[l], lastTag[l], lastFields[l], lastFile[l], lastLine[l], lastTime[l], lastCtxString[l], lastCtxFields[l], all(Event), calls(TimeNow), calls(StringFromContext), calls(FieldsFromContext), calls(fn), lastNow, pooled, smHas[addr(frameCache)], smVal[addr(frameCache)], framesPC
 //@   ensures[C01:own-level] on ==> appended[l] == old(appended[l]) + 1 && lastLevel[l] == DebugLevel && lastTag[l] == tag.tag
 //@   ensures[C01,C10:disabled] !on ==> appended[l] == old(appended[l]) && calls(TimeNow) == old(calls(TimeNow)) && calls(StringFromContext) == old(calls(StringFromContext)) && calls(FieldsFromContext) == old(calls(FieldsFromContext))
 //@   ensures[C10:lazy-once] calls(fn) == old(calls(fn)) + (on ? 1 : 0)
@@ -186,109 +200,133 @@ package log
 
 //@ func Debugf
 //@   requires tag != nil
+//@   requires forall k any :: smHas[addr(frameCache)][k] ==> isold(ifval(smVal[addr(frameCache)][k]))
+//@   maintains[C11:cache-invariant] forall k any :: smHas[addr(frameCache)][k] ==> cachedOK(k, smVal[addr(frameCache)][k])
 //@   let l = loggerOf(tag)
 //@   let on = enable(Logger.GetLevel(l), DebugLevel)
-//@   modifies appended[l], lastLevel[l], lastTag[l], lastFields[l], lastFile[l], lastLine[l], lastTime[l], lastCtxString[l], lastCtxFields[l], all(Event), calls(TimeNow), calls(StringFromContext), calls(FieldsFromContext), elems(Field), lastNow, pooled
+//@   modifies appended[l], lastLevel[l], lastTag[l], lastFields[l], lastFile[l], lastLine[l], lastTime[l], lastCtxString[l], lastCtxFields[l], all(Event), calls(TimeNow), calls(StringFromContext), calls(FieldsFromContext), elems(Field), lastNow, pooled, smHas[addr(frameCache)], smVal[addr(frameCache)], framesPC
 //@   ensures[C01:own-level] on ==> appended[l] == old(appended[l]) + 1 && lastLevel[l] == DebugLevel && lastTag[l] == tag.tag
 //@   ensures[C01,C10:disabled] !on ==> appended[l] == old(appended[l]) && calls(TimeNow) == old(calls(TimeNow)) && calls(StringFromContext) == old(calls(StringFromContext)) && calls(FieldsFromContext) == old(calls(FieldsFromContext))
 //@   ensures[C11:caller] on && enableCaller && deep(up($frame, 1)) ==> lastFile[l] == frame_file(up($frame, 1)) && lastLine[l] == frame_line(up($frame, 1))
 
 //@ func Info
 //@   requires tag != nil
+//@   requires forall k any :: smHas[addr(frameCache)][k] ==> isold(ifval(smVal[addr(frameCache)][k]))
+//@   maintains[C11:cache-invariant] forall k any :: smHas[addr(frameCache)][k] ==> cachedOK(k, smVal[addr(frameCache)][k])
 //@   let l = loggerOf(tag)
 //@   let on = enable(Logger.GetLevel(l), InfoLevel)
-//@   modifies appended[l], lastLevel[l], lastTag[l], lastFields[l], lastFile[l], lastLine[l], lastTime[l], lastCtxString[l], lastCtxFields[l], all(Event), calls(TimeNow), calls(StringFromContext), calls(FieldsFromContext), lastNow, pooled
+//@   modifies appended[l], lastLevel[l], lastTag[l], lastFields[l], lastFile[l], lastLine[l], lastTime[l], lastCtxString[l], lastCtxFields[l], all(Event), calls(TimeNow), calls(StringFromContext), calls(FieldsFromContext), lastNow, pooled, smHas[addr(frameCache)], smVal[addr(frameCache)], framesPC
 //@   ensures[C01:own-level] on ==> appended[l] == old(appended[l]) + 1 && lastLevel[l] == InfoLevel && lastTag[l] == tag.tag && lastFields[l] == fields
 //@   ensures[C01,C10:disabled] !on ==> appended[l] == old(appended[l]) && calls(TimeNow) == old(calls(TimeNow)) && calls(StringFromContext) == old(calls(StringFromContext)) && calls(FieldsFromContext) == old(calls(FieldsFromContext))
 //@   ensures[C11:caller] on && enableCaller && deep(up($frame, 1)) ==> lastFile[l] == frame_file(up($frame, 1)) && lastLine[l] == frame_line(up($frame, 1))
 
 //@ func Infof
 //@   requires tag != nil
+//@   requires forall k any :: smHas[addr(frameCache)][k] ==> isold(ifval(smVal[addr(frameCache)][k]))
+//@   maintains[C11:cache-invariant] forall k any :: smHas[addr(frameCache)][k] ==> cachedOK(k, smVal[addr(frameCache)][k])
 //@   let l = loggerOf(tag)
 //@   let on = enable(Logger.GetLevel(l), InfoLevel)
-//@   modifies appended[l], lastLevel[l], lastTag[l], lastFields[l], lastFile[l], lastLine[l], lastTime[l], lastCtxString[l], lastCtxFields[l], all(Event), calls(TimeNow), calls(StringFromContext), calls(FieldsFromContext), elems(Field), lastNow, pooled
+//@   modifies appended[l], lastLevel[l], lastTag[l], lastFields[l], lastFile[l], lastLine[l], lastTime[l], lastCtxString[l], lastCtxFields[l], all(Event), calls(TimeNow), calls(StringFromContext), calls(FieldsFromContext), elems(Field), lastNow, pooled, smHas[addr(frameCache)], smVal[addr(frameCache)], framesPC
 //@   ensures[C01:own-level] on ==> appended[l] == old(appended[l]) + 1 && lastLevel[l] == InfoLevel && lastTag[l] == tag.tag
 //@   ensures[C01,C10:disabled] !on ==> appended[l] == old(appended[l]) && calls(TimeNow) == old(calls(TimeNow)) && calls(StringFromContext) == old(calls(StringFromContext)) && calls(FieldsFromContext) == old(calls(FieldsFromContext))
 //@   ensures[C11:caller] on && enableCaller && deep(up($frame, 1)) ==> lastFile[l] == frame_file(up($frame, 1)) && lastLine[l] == frame_line(up($frame, 1))
 
 //@ func Warn
 //@   requires tag != nil
+//@   requires forall k any :: smHas[addr(frameCache)][k] ==> isold(ifval(smVal[addr(frameCache)][k]))
+//@   maintains[C11:cache-invariant] forall k any :: smHas[addr(frameCache)][k] ==> cachedOK(k, smVal[addr(frameCache)][k])
 //@   let l = loggerOf(tag)
 //@   let on = enable(Logger.GetLevel(l), WarnLevel)
-//@   modifies appended[l], lastLevel[l], lastTag[l], lastFields[l], lastFile[l], lastLine[l], lastTime[l], lastCtxString[l], lastCtxFields[l], all(Event), calls(TimeNow), calls(StringFromContext), calls(FieldsFromContext), lastNow, pooled
+//@   modifies appended[l], lastLevel[l], lastTag[l], lastFields[l], lastFile[l], lastLine[l], lastTime[l], lastCtxString[l], lastCtxFields[l], all(Event), calls(TimeNow), calls(StringFromContext), calls(FieldsFromContext), lastNow, pooled, smHas[addr(frameCache)], smVal[addr(frameCache)], framesPC
 //@   ensures[C01:own-level] on ==> appended[l] == old(appended[l]) + 1 && lastLevel[l] == WarnLevel && lastTag[l] == tag.tag && lastFields[l] == fields
 //@   ensures[C01,C10:disabled] !on ==> appended[l] == old(appended[l]) && calls(TimeNow) == old(calls(TimeNow)) && calls(StringFromContext) == old(calls(StringFromContext)) && calls(FieldsFromContext) == old(calls(FieldsFromContext))
 //@   ensures[C11:caller] on && enableCaller && deep(up($frame, 1)) ==> lastFile[l] == frame_file(up($frame, 1)) && lastLine[l] == frame_line(up($frame, 1))
 
 //@ func Warnf
 //@   requires tag != nil
+//@   requires forall k any :: smHas[addr(frameCache)][k] ==> isold(ifval(smVal[addr(frameCache)][k]))
+//@   maintains[C11:cache-invariant] forall k any :: smHas[addr(frameCache)][k] ==> cachedOK(k, smVal[addr(frameCache)][k])
 //@   let l = loggerOf(tag)
 //@   let on = enable(Logger.GetLevel(l), WarnLevel)
-//@   modifies appended[l], lastLevel[l], lastTag[l], lastFields[l], lastFile[l], lastLine[l], lastTime[l], lastCtxString[l], lastCtxFields[l], all(Event), calls(TimeNow), calls(StringFromContext), calls(FieldsFromContext), elems(Field), lastNow, pooled
+//@   modifies appended[l], lastLevel[l], lastTag[l], lastFields[l], lastFile[l], lastLine[l], lastTime[l], lastCtxString[l], lastCtxFields[l], all(Event), calls(TimeNow), calls(StringFromContext), calls(FieldsFromContext), elems(Field), lastNow, pooled, smHas[addr(frameCache)], smVal[addr(frameCache)], framesPC
 //@   ensures[C01:own-level] on ==> appended[l] == old(appended[l]) + 1 && lastLevel[l] == WarnLevel && lastTag[l] == tag.tag
 //@   ensures[C01,C10:disabled] !on ==> appended[l] == old(appended[l]) && calls(TimeNow) == old(calls(TimeNow)) && calls(StringFromContext) == old(calls(StringFromContext)) && calls(FieldsFromContext) == old(calls(FieldsFromContext))
 //@   ensures[C11:caller] on && enableCaller && deep(up($frame, 1)) ==> lastFile[l] == frame_file(up($frame, 1)) && lastLine[l] == frame_line(up($frame, 1))
 
 //@ func Error
 //@   requires tag != nil
+//@   requires forall k any :: smHas[addr(frameCache)][k] ==> isold(ifval(smVal[addr(frameCache)][k]))
+//@   maintains[C11:cache-invariant] forall k any :: smHas[addr(frameCache)][k] ==> cachedOK(k, smVal[addr(frameCache)][k])
 //@   let l = loggerOf(tag)
 //@   let on = enable(Logger.GetLevel(l), ErrorLevel)
-//@   modifies appended[l], lastLevel[l], lastTag[l], lastFields[l], lastFile[l], lastLine[l], lastTime[l], lastCtxString[l], lastCtxFields[l], all(Event), calls(TimeNow), calls(StringFromContext), calls(FieldsFromContext), lastNow, pooled
+//@   modifies appended[l], lastLevel[l], lastTag[l], lastFields[l], lastFile[l], lastLine[l], lastTime[l], lastCtxString[l], lastCtxFields[l], all(Event), calls(TimeNow), calls(StringFromContext), calls(FieldsFromContext), lastNow, pooled, smHas[addr(frameCache)], smVal[addr(frameCache)], framesPC
 //@   ensures[C01:own-level] on ==> appended[l] == old(appended[l]) + 1 && lastLevel[l] == ErrorLevel && lastTag[l] == tag.tag && lastFields[l] == fields
 //@   ensures[C01,C10:disabled] !on ==> appended[l] == old(appended[l]) && calls(TimeNow) == old(calls(TimeNow)) && calls(StringFromContext) == old(calls(StringFromContext)) && calls(FieldsFromContext) == old(calls(FieldsFromContext))
 //@   ensures[C11:caller] on && enableCaller && deep(up($frame, 1)) ==> lastFile[l] == frame_file(up($frame, 1)) && lastLine[l] == frame_line(up($frame, 1))
 
 //@ func Errorf
 //@   requires tag != nil
+//@   requires forall k any :: smHas[addr(frameCache)][k] ==> isold(ifval(smVal[addr(frameCache)][k]))
+//@   maintains[C11:cache-invariant] forall k any :: smHas[addr(frameCache)][k] ==> cachedOK(k, smVal[addr(frameCache)][k])
 //@   let l = loggerOf(tag)
 //@   let on = enable(Logger.GetLevel(l), ErrorLevel)
-//@   modifies appended[l], lastLevel[l], lastTag[l], lastFields[l], lastFile[l], lastLine[l], lastTime[l], lastCtxString[l], lastCtxFields[l], all(Event), calls(TimeNow), calls(StringFromContext), calls(FieldsFromContext), elems(Field), lastNow, pooled
+//@   modifies appended[l], lastLevel[l], lastTag[l], lastFields[l], lastFile[l], lastLine[l], lastTime[l], lastCtxString[l], lastCtxFields[l], all(Event), calls(TimeNow), calls(StringFromContext), calls(FieldsFromContext), elems(Field), lastNow, pooled, smHas[addr(frameCache)], smVal[addr(frameCache)], framesPC
 //@   ensures[C01:own-level] on ==> appended[l] == old(appended[l]) + 1 && lastLevel[l] == ErrorLevel && lastTag[l] == tag.tag
 //@   ensures[C01,C10:disabled] !on ==> appended[l] == old(appended[l]) && calls(TimeNow) == old(calls(TimeNow)) && calls(StringFromContext) == old(calls(StringFromContext)) && calls(FieldsFromContext) == old(calls(FieldsFromContext))
 //@   ensures[C11:caller] on && enableCaller && deep(up($frame, 1)) ==> lastFile[l] == frame_file(up($frame, 1)) && lastLine[l] == frame_line(up($frame, 1))
 
 //@ func Panic
 //@   requires tag != nil
+//@   requires forall k any :: smHas[addr(frameCache)][k] ==> isold(ifval(smVal[addr(frameCache)][k]))
+//@   maintains[C11:cache-invariant] forall k any :: smHas[addr(frameCache)][k] ==> cachedOK(k, smVal[addr(frameCache)][k])
 //@   let l = loggerOf(tag)
 //@   let on = enable(Logger.GetLevel(l), PanicLevel)
-//@   modifies appended[l], lastLevel[l], lastTag[l], lastFields[l], lastFile[l], lastLine[l], lastTime[l], lastCtxString[l], lastCtxFields[l], all(Event), calls(TimeNow), calls(StringFromContext), calls(FieldsFromContext), lastNow, pooled
+//@   modifies appended[l], lastLevel[l], lastTag[l], lastFields[l], lastFile[l], lastLine[l], lastTime[l], lastCtxString[l], lastCtxFields[l], all(Event), calls(TimeNow), calls(StringFromContext), calls(FieldsFromContext), lastNow, pooled, smHas[addr(frameCache)], smVal[addr(frameCache)], framesPC
 //@   ensures[C01:own-level] on ==> appended[l] == old(appended[l]) + 1 && lastLevel[l] == PanicLevel && lastTag[l] == tag.tag && lastFields[l] == fields
 //@   ensures[C01,C10:disabled] !on ==> appended[l] == old(appended[l]) && calls(TimeNow) == old(calls(TimeNow)) && calls(StringFromContext) == old(calls(StringFromContext)) && calls(FieldsFromContext) == old(calls(FieldsFromContext))
 //@   ensures[C11:caller] on && enableCaller && deep(up($frame, 1)) ==> lastFile[l] == frame_file(up($frame, 1)) && lastLine[l] == frame_line(up($frame, 1))
 
 //@ func Panicf
 //@   requires tag != nil
+//@   requires forall k any :: smHas[addr(frameCache)][k] ==> isold(ifval(smVal[addr(frameCache)][k]))
+//@   maintains[C11:cache-invariant] forall k any :: smHas[addr(frameCache)][k] ==> cachedOK(k, smVal[addr(frameCache)][k])
 //@   let l = loggerOf(tag)
 //@   let on = enable(Logger.GetLevel(l), PanicLevel)
-//@   modifies appended[l], lastLevel[l], lastTag[l], lastFields[l], lastFile[l], lastLine[l], lastTime[l], lastCtxString[l], lastCtxFields[l], all(Event), calls(TimeNow), calls(StringFromContext), calls(FieldsFromContext), elems(Field), lastNow, pooled
+//@   modifies appended[l], lastLevel[l], lastTag[l], lastFields[l], lastFile[l], lastLine[l], lastTime[l], lastCtxString[l], lastCtxFields[l], all(Event), calls(TimeNow), calls(StringFromContext), calls(FieldsFromContext), elems(Field), lastNow, pooled, smHas[addr(frameCache)], smVal[addr(frameCache)], framesPC
 //@   ensures[C01:own-level] on ==> appended[l] == old(appended[l]) + 1 && lastLevel[l] == PanicLevel && lastTag[l] == tag.tag
 //@   ensures[C01,C10:disabled] !on ==> appended[l] == old(appended[l]) && calls(TimeNow) == old(calls(TimeNow)) && calls(StringFromContext) == old(calls(StringFromContext)) && calls(FieldsFromContext) == old(calls(FieldsFromContext))
 //@   ensures[C11:caller] on && enableCaller && deep(up($frame, 1)) ==> lastFile[l] == frame_file(up($frame, 1)) && lastLine[l] == frame_line(up($frame, 1))
 
 //@ func Fatal
 //@   requires tag != nil
+//@   requires forall k any :: smHas[addr(frameCache)][k] ==> isold(ifval(smVal[addr(frameCache)][k]))
+//@   maintains[C11:cache-invariant] forall k any :: smHas[addr(frameCache)][k] ==> cachedOK(k, smVal[addr(frameCache)][k])
 //@   let l = loggerOf(tag)
 //@   let on = enable(Logger.GetLevel(l), FatalLevel)
-//@   modifies appended[l], lastLevel[l], lastTag[l], lastFields[l], lastFile[l], lastLine[l], lastTime[l], lastCtxString[l], lastCtxFields[l], all(Event), calls(TimeNow), calls(StringFromContext), calls(FieldsFromContext), lastNow, pooled
+//@   modifies appended[l], lastLevel[l], lastTag[l], lastFields[l], lastFile[l], lastLine[l], lastTime[l], lastCtxString[l], lastCtxFields[l], all(Event), calls(TimeNow), calls(StringFromContext), calls(FieldsFromContext), lastNow, pooled, smHas[addr(frameCache)], smVal[addr(frameCache)], framesPC
 //@   ensures[C01:own-level] on ==> appended[l] == old(appended[l]) + 1 && lastLevel[l] == FatalLevel && lastTag[l] == tag.tag && lastFields[l] == fields
 //@   ensures[C01,C10:disabled] !on ==> appended[l] == old(appended[l]) && calls(TimeNow) == old(calls(TimeNow)) && calls(StringFromContext) == old(calls(StringFromContext)) && calls(FieldsFromContext) == old(calls(FieldsFromContext))
 //@   ensures[C11:caller] on && enableCaller && deep(up($frame, 1)) ==> lastFile[l] == frame_file(up($frame, 1)) && lastLine[l] == frame_line(up($frame, 1))
 
 //@ func Fatalf
 //@   requires tag != nil
+//@   requires forall k any :: smHas[addr(frameCache)][k] ==> isold(ifval(smVal[addr(frameCache)][k]))
+//@   maintains[C11:cache-invariant] forall k any :: smHas[addr(frameCache)][k] ==> cachedOK(k, smVal[addr(frameCache)][k])
 //@   let l = loggerOf(tag)
 //@   let on = enable(Logger.GetLevel(l), FatalLevel)
-//@   modifies appended[l], lastLevel[l], lastTag[l], lastFields[l], lastFile[l], lastLine[l], lastTime[l], lastCtxString[l], lastCtxFields[l], all(Event), calls(TimeNow), calls(StringFromContext), calls(FieldsFromContext), elems(Field), lastNow, pooled
+//@   modifies appended[l], lastLevel[l], lastTag[l], lastFields[l], lastFile[l], lastLine[l], lastTime[l], lastCtxString[l], lastCtxFields[l], all(Event), calls(TimeNow), calls(StringFromContext), calls(FieldsFromContext), elems(Field), lastNow, pooled, smHas[addr(frameCache)], smVal[addr(frameCache)], framesPC
 //@   ensures[C01:own-level] on ==> appended[l] == old(appended[l]) + 1 && lastLevel[l] == FatalLevel && lastTag[l] == tag.tag
 //@   ensures[C01,C10:disabled] !on ==> appended[l] == old(appended[l]) && calls(TimeNow) == old(calls(TimeNow)) && calls(StringFromContext) == old(calls(StringFromContext)) && calls(FieldsFromContext) == old(calls(FieldsFromContext))
 //@   ensures[C11:caller] on && enableCaller && deep(up($frame, 1)) ==> lastFile[l] == frame_file(up($frame, 1)) && lastLine[l] == frame_line(up($frame, 1))
 
 //@ func Record
 //@   requires tag != nil
+//@   requires forall k any :: smHas[addr(frameCache)][k] ==> isold(ifval(smVal[addr(frameCache)][k]))
+//@   maintains[C11:cache-invariant] forall k any :: smHas[addr(frameCache)][k] ==> cachedOK(k, smVal[addr(frameCache)][k])
 //@   requires 0 <= skip && skip <= 1000000
 //@   let l = loggerOf(tag)
 //@   let on = enable(Logger.GetLevel(l), level)
-//@   modifies appended[l], lastLevel[l], lastTag[l], lastFields[l], lastFile[l], lastLine[l], lastTime[l], lastCtxString[l], lastCtxFields[l], all(Event), calls(TimeNow), calls(StringFromContext), calls(FieldsFromContext), lastNow, pooled
+//@   modifies appended[l], lastLevel[l], lastTag[l], lastFields[l], lastFile[l], lastLine[l], lastTime[l], lastCtxString[l], lastCtxFields[l], all(Event), calls(TimeNow), calls(StringFromContext), calls(FieldsFromContext), lastNow, pooled, smHas[addr(frameCache)], smVal[addr(frameCache)], framesPC
 //@   ensures[C01:own-level] on ==> appended[l] == old(appended[l]) + 1 && lastLevel[l] == level && lastTag[l] == tag.tag && lastFields[l] == fields
 //@   ensures[C01,C10:disabled] !on ==> appended[l] == old(appended[l]) && calls(TimeNow) == old(calls(TimeNow)) && calls(StringFromContext) == old(calls(StringFromContext)) && calls(FieldsFromContext) == old(calls(FieldsFromContext))
 //@   ensures[C11:caller] on && enableCaller && deep(up($frame, skip)) ==> lastFile[l] == frame_file(up($frame, skip)) && lastLine[l] == frame_line(up($frame, skip))
